@@ -104,6 +104,11 @@ def form_mappings(year, fname):
                 ob(oid + '/length-limit', pf.max_length == lim or (lim is None and pf.max_length is None) or (pf.max_length is not None and lim is not None and pf.max_length <= lim and key_allowed(exc, year, fname, short, 'limit')),
                    f'length limit of the mapping ({pf.max_length}) equals the template limit ({lim})', {'mapping_max_length': pf.max_length, 'template_limit': lim})
         else:
+            # AcroForm templates carry no accessibility text, but their field names say what a box is: a social security number box
+            # (…ssn…) is filled from an …ssn line and from nothing else, and an …ssn line fills only such boxes
+            box_ssn, line_ssn = 'ssn' in tgt.lower(), 'ssn' in bn.lower()
+            if box_ssn or line_ssn:
+                ob(oid + '/ssn-box-from-ssn-line', box_ssn == line_ssn, f'template field {tgt} and line {fn} are both or neither a social security number', {'template_field': tgt, 'mapped_line': fn})
             label = nc_line(tgt)
             mine = lead(bn)
             if label and mine and '.' not in fn:
